@@ -78,6 +78,17 @@ Recv(chunk, v) ==
 
 Reset == buf' = << >> /\ verdict' = [e \in EntryPoints |-> None] /\ hist' = Hist0
 
+(* The receiver takes the accepted header off the front of its buffer - n bytes, the length the
+   header reports - and goes on with what follows it: the next header of a pipelined peer, or the
+   application's bytes.  A new epoch: the history starts again with the remainder. *)
+Consume(n, v) ==
+    /\ buf' = SubSeq(buf, n + 1, Len(buf))
+    /\ verdict' = v
+    /\ hist' = NextHist(Hist0, SubSeq(buf, n + 1, Len(buf)), v)
+
+(* how many bytes the header at the front of b occupies (0: there is none) *)
+HeaderLenSpec(b) == IF V2!WellFormed(b) THEN 16 + V2!Declared(b) ELSE V1!AcceptedLen(b)
+
 (***************************************************************************)
 (* Property predicates.  b = buffer, v = verdicts on b, h = history of     *)
 (* the states BEFORE b.  Each returns the set of failing clause names.     *)
@@ -154,6 +165,14 @@ C04_Fails(b, v, h) ==
     IN  UNION {one(e) : e \in HeaderEntries} \cup len1("v1b") \cup len1("v1s") \cup len2
 
 C04_Nontrivial(b, v, h) == \E e \in HeaderEntries : h.firstOk[e].k = "ok"
+
+(* "the number of bytes a caller must remove from its buffer is exactly the length of the
+   reported header": n is what the accepted header's length accessor returned *)
+C04_ConsumeFails(b, n) ==
+    LET exp == HeaderLenSpec(b)
+    IN  IF exp = 0 THEN {}                      \* accepted although not well-formed: C01 / C02 / C06 report that
+        ELSE IF n # exp THEN {<< "C04", "bytes-to-remove-differ-from-header-length", "auto" >>}
+        ELSE {}
 
 (* the reported header on its own is accepted with the identical result *)
 C04_ReparseFails(e, input, r, h) ==
